@@ -234,6 +234,13 @@ func checkC01(c *Ctx, r *Report) {
 	}
 	c.checkParseSemantics(r, ro)
 	c.checkFanoutSemantics(r, ro, "C01.fanout-values")
+	for tn, ok := range c.checkRollingLoggerSemantics(r, ro, "C01.rolling-values") {
+		if ok {
+			tn := tn
+			r.Decide([]string{"C01.gate-logger:", "C01.split:"}, func(k string) bool { return strings.Contains(k, "(*"+tn+")") },
+				tn+" evaluated end to end in synchronous mode: every in-range event is written once, to the file its level selects; GetLevel is the configured range the entry points gate on")
+		}
+	}
 	c.checkSplit(r, ro)
 }
 
@@ -670,6 +677,68 @@ func (c *Ctx) checkInnerLoggerBase(r *Report, owner *types.Named, d delivery, ke
 		return
 	}
 	n, bad := 0, 0
+	// a value stored into the field may be a literal built on the spot (`f.logger = &SyncLogger{LoggerBase: f.LoggerBase}`),
+	// possibly behind an interface conversion or a φ of such literals
+	copiesBase := func(al *ssa.Alloc) bool {
+		if al.Referrers() == nil {
+			return false
+		}
+		for _, u := range *al.Referrers() {
+			fa, ok := u.(*ssa.FieldAddr)
+			if !ok || fieldName(fa) != "LoggerBase" || fa.Referrers() == nil {
+				continue
+			}
+			for _, u2 := range *fa.Referrers() {
+				if st, ok := u2.(*ssa.Store); ok && st.Addr == fa {
+					p := c.accessPath(st.Val, &Frame{Fn: al.Parent()})
+					if strings.HasSuffix(p, ".LoggerBase") && strings.HasPrefix(p, "param:") {
+						return true
+					}
+				}
+			}
+		}
+		return false
+	}
+	var literals func(v ssa.Value, depth int) ([]*ssa.Alloc, bool)
+	literals = func(v ssa.Value, depth int) ([]*ssa.Alloc, bool) {
+		if depth > 4 {
+			return nil, false
+		}
+		switch x := v.(type) {
+		case *ssa.MakeInterface:
+			return literals(x.X, depth+1)
+		case *ssa.ChangeInterface:
+			return literals(x.X, depth+1)
+		case *ssa.Alloc:
+			return []*ssa.Alloc{x}, true
+		case *ssa.Phi:
+			var out []*ssa.Alloc
+			for _, e := range x.Edges {
+				as, ok := literals(e, depth+1)
+				if !ok {
+					return nil, false
+				}
+				out = append(out, as...)
+			}
+			return out, true
+		}
+		return nil, false
+	}
+	var rest []ssa.Value
+	for _, v := range vals {
+		if as, ok := literals(v, 0); ok && len(as) > 0 {
+			for _, al := range as {
+				n++
+				if !copiesBase(al) {
+					bad++
+					r.Fail(key+"#"+c.instrPos(al), c.instrPos(al), "the inner logger literal does not copy the outer logger's LoggerBase: its level gate differs from the configured range")
+				}
+			}
+			continue
+		}
+		rest = append(rest, v)
+	}
+	vals = rest
 	for _, v := range vals {
 		var ctors []*ssa.Function
 		if call, ok := v.(*ssa.Call); ok {
